@@ -110,6 +110,11 @@ pub struct Rec {
     pub n_aead_open: u64,
     pub n_cross: u64,
     pub cross_violations: Vec<String>,
+    /// inputs of the primitive call being cross-checked (set by the methods whose verdict can depend on the shape of
+    /// key material that a provider's own random generator produced)
+    pub staged: Option<(String, Vec<Vec<u8>>)>,
+    /// self-contained records of disagreements: (operation, suite, primary, cross, inputs)
+    pub prim_cases: Vec<crate::types::PrimCase>,
 }
 
 thread_local! {
@@ -128,6 +133,12 @@ pub fn rec_set_phase(p: u64) {
 }
 pub fn rec_take_events() -> Vec<Ev> {
     REC.with(|r| std::mem::take(&mut r.borrow_mut().events))
+}
+pub fn rec_take_prim_cases() -> Vec<crate::types::PrimCase> {
+    REC.with(|r| std::mem::take(&mut r.borrow_mut().prim_cases))
+}
+fn stage(op: &str, args: Vec<Vec<u8>>) {
+    REC.with(|r| r.borrow_mut().staged = Some((op.to_string(), args)))
 }
 pub fn rec_take_cross_violations() -> Vec<String> {
     REC.with(|r| std::mem::take(&mut r.borrow_mut().cross_violations))
@@ -346,6 +357,7 @@ impl CryptoProvider for SimCrypto {
         Some(SimSuite {
             cs: cipher_suite,
             kind: self.kind,
+            cross_kind: self.cross,
             inner,
             cross,
             ctx: self.ctx.clone(),
@@ -357,6 +369,7 @@ impl CryptoProvider for SimCrypto {
 pub struct SimSuite {
     cs: CipherSuite,
     kind: ProviderKind,
+    cross_kind: Option<ProviderKind>,
     inner: Inner,
     cross: Option<Inner>,
     ctx: Arc<CryptoCtx>,
@@ -431,6 +444,21 @@ impl SimSuite {
     }
 
     fn cross_report(&self, what: &str, detail: String) {
+        REC.with(|r| {
+            let mut rb = r.borrow_mut();
+            if let Some((op, args)) = rb.staged.take() {
+                if op == what {
+                    let case = crate::types::PrimCase {
+                        op,
+                        suite: u16::from(self.cs),
+                        primary: self.kind.name().to_string(),
+                        cross: self.cross_kind.map(|k| k.name().to_string()).unwrap_or_default(),
+                        args: args.iter().map(hex::encode).collect(),
+                    };
+                    rb.prim_cases.push(case);
+                }
+            }
+        });
         REC.with(|r| {
             r.borrow_mut().cross_violations.push(format!(
                 "provider disagreement in {what} (suite {:?}, {} vs cross): {detail}",
@@ -712,6 +740,7 @@ impl CipherSuiteProvider for SimSuite {
             disp!(&self.inner, s => s.hpke_open(ciphertext, local_secret, local_public, info, aad));
         if let Some(c) = &self.cross {
             let o2 = disp!(c, s => s.hpke_open(ciphertext, local_secret, local_public, info, aad));
+            stage("hpke_open", vec![ciphertext.kem_output.clone(), ciphertext.ciphertext.clone(), local_secret.as_ref().to_vec(), local_public.as_ref().to_vec(), info.to_vec(), vec![aad.is_some() as u8], aad.unwrap_or(&[]).to_vec()]);
             self.cross_cmp(
                 "hpke_open",
                 || {
@@ -852,12 +881,15 @@ impl CipherSuiteProvider for SimSuite {
                 .map(|(s, p)| [s.as_ref(), p.as_ref()].concat())
                 .map_err(|x| SimCryptoError(x.0.clone()));
             let b = o2.map(|(s, p)| [s.as_ref(), p.as_ref()].concat());
+            stage("kem_derive", vec![ikm.to_vec()]);
             self.cross_cmp("kem_derive", || format!("ikmlen={}", ikm.len()), &a, b);
         }
         out
     }
 
     fn kem_generate(&self) -> Result<(HpkeSecretKey, HpkePublicKey), Self::Error> {
+        // (keys come from the provider's own generator: that is what produces provider-shaped key material, such as
+        // a scalar exported without its leading zero byte; disagreements are recorded with their inputs - PrimCase)
         let out = disp!(&self.inner, s => s.kem_generate());
         if let (Some(c), Ok((sk, pk))) = (&self.cross, &out) {
             // a key generated by one provider must be usable by the other: seal with cross, open with primary
@@ -869,10 +901,13 @@ impl CipherSuiteProvider for SimSuite {
             REC.with(|r| r.borrow_mut().n_cross += 1);
             match opened {
                 Ok(pt) if &pt[..] == b"cross-check" => {}
-                other => self.cross_report(
-                    "kem_generate/hpke interop",
-                    format!("seal by cross, open by primary failed: {:?}", other.map(|_| ())),
-                ),
+                other => {
+                    stage("kem_generate/hpke interop", vec![sk.as_ref().to_vec(), pk.as_ref().to_vec()]);
+                    self.cross_report(
+                        "kem_generate/hpke interop",
+                        format!("seal by cross, open by primary failed: {:?}", other.map(|_| ())),
+                    )
+                }
             }
         }
         out
@@ -882,6 +917,7 @@ impl CipherSuiteProvider for SimSuite {
         let out = disp!(&self.inner, s => s.kem_public_key_validate(key));
         if let Some(c) = &self.cross {
             let o2 = disp!(c, s => s.kem_public_key_validate(key));
+            stage("kem_public_key_validate", vec![key.as_ref().to_vec()]);
             self.cross_decision(
                 "kem_public_key_validate",
                 || format!("key={}", hexs(key)),
@@ -922,6 +958,7 @@ impl CipherSuiteProvider for SimSuite {
         let out = disp!(&self.inner, s => s.signature_key_derive_public(secret_key));
         if let Some(c) = &self.cross {
             let o2 = disp!(c, s => s.signature_key_derive_public(secret_key));
+            stage("signature_key_derive_public", vec![secret_key.as_ref().to_vec()]);
             self.cross_cmp(
                 "signature_key_derive_public",
                 || format!("sklen={}", secret_key.len()),
@@ -942,6 +979,7 @@ impl CipherSuiteProvider for SimSuite {
                 let v = disp!(c, s => s.verify(&pk, sig, data));
                 REC.with(|r| r.borrow_mut().n_cross += 1);
                 if let Err(err) = v {
+                    stage("sign/verify interop", vec![secret_key.as_ref().to_vec(), data.to_vec(), sig.clone()]);
                     self.cross_report(
                         "sign/verify interop",
                         format!("signature by primary rejected by cross: {}", err.0),
@@ -962,6 +1000,7 @@ impl CipherSuiteProvider for SimSuite {
         let out = disp!(&self.inner, s => s.verify(public_key, signature, data));
         if let Some(c) = &self.cross {
             let o2 = disp!(c, s => s.verify(public_key, signature, data));
+            stage("verify", vec![public_key.as_ref().to_vec(), signature.to_vec(), data.to_vec()]);
             self.cross_decision(
                 "verify",
                 || {
@@ -1013,4 +1052,72 @@ fn det_signature_key(
         }
         Err(SimCryptoError("could not derive signature key".into()))
     }
+}
+
+impl ProviderKind {
+    pub fn from_name(n: &str) -> Option<ProviderKind> {
+        [ProviderKind::Det, ProviderKind::RustCrypto, ProviderKind::OpenSsl, ProviderKind::AwsLc]
+            .into_iter()
+            .find(|k| k.name() == n)
+    }
+}
+
+/// Evaluate a recorded primitive call again on the same pair of providers; returns the disagreement, if any.
+pub fn replay_prim(pc: &crate::types::PrimCase) -> Result<Option<String>, String> {
+    let primary = ProviderKind::from_name(&pc.primary).ok_or("unknown primary provider")?;
+    let cross = ProviderKind::from_name(&pc.cross).ok_or("unknown cross provider")?;
+    let args: Vec<Vec<u8>> = pc.args.iter().map(|a| hex::decode(a).unwrap_or_default()).collect();
+    let ctx = CryptoCtx::new(0, 1);
+    let suite = SimCrypto::new(primary, ctx)
+        .with_cross(cross)
+        .cipher_suite_provider(CipherSuite::from(pc.suite))
+        .ok_or("suite not supported by both providers")?;
+    rec_reset(false);
+    let a = |i: usize| args.get(i).cloned().unwrap_or_default();
+    match pc.op.as_str() {
+        "hpke_open" => {
+            let ct = HpkeCiphertext { kem_output: a(0), ciphertext: a(1) };
+            let aad = a(6);
+            let _ = suite.hpke_open(&ct, &a(2).into(), &a(3).into(), &a(4), if a(5) == [1] { Some(&aad[..]) } else { None });
+        }
+        "kem_derive" => {
+            let _ = suite.kem_derive(&a(0));
+        }
+        "signature_key_derive_public" => {
+            let _ = suite.signature_key_derive_public(&SignatureSecretKey::new(a(0)));
+        }
+        "verify" => {
+            let _ = suite.verify(&a(0).into(), &a(1), &a(2));
+        }
+        "kem_public_key_validate" => {
+            let _ = suite.kem_public_key_validate(&a(0).into());
+        }
+        "sign/verify interop" => {
+            // the signature the primary made is part of the record: verify it on the cross provider
+            let sk = SignatureSecretKey::new(a(0));
+            if let (Some(c), Ok(pk)) = (&suite.cross, disp!(&suite.inner, s => s.signature_key_derive_public(&sk))) {
+                if let Err(err) = disp!(c, s => s.verify(&pk, &a(2), &a(1))) {
+                    return Ok(Some(format!("signature by primary rejected by cross: {}", err.0)));
+                }
+            }
+            return Ok(None);
+        }
+        "kem_generate/hpke interop" => {
+            let (sk, pk): (HpkeSecretKey, HpkePublicKey) = (a(0).into(), a(1).into());
+            if let Some(c) = &suite.cross {
+                let ct = disp!(c, s => s.hpke_seal(&pk, b"mlsim", None, b"cross-check"));
+                let opened = match ct {
+                    Ok(ct) => disp!(&suite.inner, s => s.hpke_open(&ct, &sk, &pk, b"mlsim", None)),
+                    Err(err) => Err(err),
+                };
+                return Ok(match opened {
+                    Ok(pt) if &pt[..] == b"cross-check" => None,
+                    other => Some(format!("seal by cross, open by primary failed: {:?}", other.map(|_| ()))),
+                });
+            }
+            return Ok(None);
+        }
+        other => return Err(format!("primitive `{other}` cannot be replayed on its own")),
+    }
+    Ok(rec_take_cross_violations().into_iter().next())
 }
